@@ -36,7 +36,7 @@ REAL = ["aiohomekit.tlv8 (tlv_iterator, tlv_array, (de)serialisers, TLVStruct.de
 STUB = ["GATT link / bleak backend (SimGATT)", "aiocoap message layer (SimCoAP)", "accessories (reference encoders)"]
 ASSUMPTIONS = ["claimed for structures received from accessories and BleRequest only; reflection over every TLVStruct subclass / camera structures (pure codec) is not claimed",
                "CoAP database layout is known only from what the library expects (Apple's Thread transport is not publicly specified): the reference cannot expose a symmetric misunderstanding"]
-TIERS = {"quick": {"runs": 1500, "wall": 55}, "thorough": {"runs": 100000, "wall": 1500}}
+TIERS = {"quick": {"runs": 12000, "wall": 55}, "thorough": {"runs": 100000, "wall": 1500}}
 
 FMT = ["bool", "uint8", "uint16", "uint32", "uint64", "int", "float", "string", "data"]
 IID_POOL = [2, 255, 256, 257, 0x1000, 0x7F00, 0xFF00, 0xFFFE, 1000, 4660, 0x0A0D, 300, 511, 512, 0x00C8, 0x1001]
@@ -46,6 +46,8 @@ CTYPES = ["00000025", "00000008", "00000013", "0000002F", "00000011", "000000CE"
 
 def gen_plan(seed: int, tier: str) -> dict:
     r = random.Random(seed)
+    if r.random() < 0.35:
+        return gen_coap(r)
     n_svc = r.choice([1, 2, 3, 4])
     iids = r.sample(IID_POOL, n_svc)
     services = []
@@ -73,6 +75,33 @@ def gen_plan(seed: int, tier: str) -> dict:
     return {"mode": "ble", "services": services, "mtu": r.choice([23, 100, 158, 247, 512]), "policy": r.choice(["max", "max", "header_only_first", "random"]), "ops": []}
 
 
+def gen_coap(r: random.Random) -> dict:
+    accs = []
+    for aid in range(1, r.choice([1, 1, 2, 3]) + 1):
+        n_svc = r.choice([1, 2, 3, 4])
+        iids = r.sample([x for x in IID_POOL if x > 40], n_svc)
+        svcs = []
+        nxt = 0x40 + 0x1000 * (aid - 1)
+        for k in range(n_svc):
+            chars = []
+            for _ in range(r.choice([1, 2, 3, 6])):
+                fmt = r.choice(["bool", "uint8", "uint16", "uint32", "int", "float", "string", "data"])
+                c = {"type": r.choice(CTYPES), "iid": nxt, "fmt": fmt, "perms": r.sample(["pr", "pw", "ev", "tw", "hd", "aa"], r.choice([1, 2, 3])),
+                     "unit": r.choice([None, "celsius", "percentage", "lux"]) if fmt in ("uint8", "int", "float") else None,
+                     "desc": r.choice([None, None, "Brightness", "x" * 100, "y" * 254, "z" * 255, "w" * 256, "v" * 300])}
+                if fmt in ("uint8", "uint16", "uint32", "int", "float") and r.random() < 0.5:
+                    c["min"], c["max"] = {"uint8": (0, 200), "uint16": (10, 60000), "uint32": (0, 2**31), "int": (-100, 100), "float": (0.5, 360.0)}[fmt]
+                    if r.random() < 0.5:
+                        c["step"] = {"float": 0.5}.get(fmt, 1)
+                c["value"] = {"bool": True, "uint8": 7, "uint16": 300, "uint32": 70000, "int": -5, "float": 1.5, "string": r.choice(["n", "name", "ü" * 10]), "data": "0a0b"}[fmt]
+                chars.append(c)
+                nxt += r.choice([1, 1, 3, 0x100])
+            others = [i for i in iids if i != iids[k]]
+            svcs.append({"type": TYPES[k % len(TYPES)], "iid": iids[k], "chars": chars, "linked": r.sample(others, min(r.choice([0, 0, 1, 2, 3]), len(others))), "props": r.choice([0, 0, 1, 2])})
+        accs.append({"aid": aid, "services": svcs})
+    return {"mode": "coap", "accessories": accs, "ops": []}
+
+
 def build_services(plan) -> list[ba.GService]:
     extra = []
     for s in plan["services"]:
@@ -87,8 +116,8 @@ def build_services(plan) -> list[ba.GService]:
 def execute(plan: dict, ch: Chooser) -> dict:
     import bleak  # noqa: F401
 
-    if plan["mode"] != "ble":
-        raise ValueError(plan["mode"])
+    if plan["mode"] == "coap":
+        return execute_coap(plan, ch)
     from worlds import ble as wble
     from worlds import disc
 
@@ -189,3 +218,93 @@ def execute(plan: dict, ch: Chooser) -> dict:
         seams.end()
     sample = {"mode": "ble", "mtu": plan["mtu"], "policy": plan["policy"], "services": [(hex(s["iid"]), s["linked"], [(c["fmt"], len(c["desc"] or "")) for c in s["chars"]]) for s in plan["services"]]}
     return result_of(ctx, nontrivial=nontrivial, sim_time=loop.time(), sample=sample)
+
+
+def execute_coap(plan: dict, ch: Chooser) -> dict:
+    from refimpl import coap_accessory as ca
+    from worlds import coap as wcoap
+
+    ctx = Ctx(ch)
+    seams.begin(ctx)
+    loop = SimLoop(max_iterations=300_000)
+    ctx.loop = loop
+    acc, rec = wcoap.standard_accessory(ch, n_chars=1)
+    accessories = []
+    for a in plan["accessories"]:
+        svcs = [ca.CService("0000003E", 1 + 0x2000 * (a["aid"] - 1), [ca.CChar("00000023", 2 + 0x2000 * (a["aid"] - 1), "string", ("pr",), f"Acc{a['aid']}")])]
+        if a["aid"] == 1:
+            svcs.append(ca.CService("00000055", 32, [ca.CChar("00000050", 36, "data", ("pr", "pw"), b"")]))
+        for s_ in a["services"]:
+            # like real accessories every service carries a readable service-signature characteristic
+            sig = ca.CChar("000000A5", (s_["iid"] + 0x6000 + 0x33 * a["aid"]) & 0xFFFF or 0x6001, "data", ("pr",), "")
+            svcs.append(ca.CService(s_["type"], s_["iid"], [sig] + [ca.CChar(c["type"], c["iid"], c["fmt"], c["perms"], c["value"], c["unit"], c.get("min"), c.get("max"), c.get("step"), c["desc"])
+                                                                    for c in s_["chars"]], linked=list(s_["linked"]), props=s_["props"]))
+        accessories.append((a["aid"], svcs))
+    acc.accessories = accessories
+    wcoap.CoapWorld(ctx, loop, acc)
+    big = len(acc.database()) > 255
+    links2 = any(len(s_["linked"]) >= 1 for a in plan["accessories"] for s_ in a["services"])
+
+    async def main():
+        p = wcoap.make_pairing(rec)
+        try:
+            got = await p.list_accessories_and_characteristics()
+        except Exception as e:  # noqa: BLE001
+            implicated = any(len(s_["linked"]) >= 2 or any(i & 0xFF == 0 or i >> 8 == 0 and False for i in s_["linked"]) for a in plan["accessories"] for s_ in a["services"])
+            ctx.violate("database-fetch-failed", f"coap/{type(e).__name__}/{'links-implicated' if implicated else 'other'}",
+                        f"CoAP accessory database from a conformant accessory could not be listed: {e!r}; linked services {[s_['linked'] for a in plan['accessories'] for s_ in a['services']]}; errors {acc.protocol_errors[:2]}")
+            return
+        ctx.obligations += 1
+        by_aid = {a["aid"]: a for a in got}
+        for aid, svcs in accessories:
+            ga = by_aid.get(aid)
+            if ga is None:
+                ctx.violate("entity-map-differs", "coap-accessory-missing", f"accessory {aid} missing ({sorted(by_aid)})")
+                continue
+            gs_by = {s_["iid"]: s_ for s_ in ga["services"]}
+            for s_ in svcs:
+                gs = gs_by.get(s_.iid)
+                if gs is None:
+                    ctx.violate("entity-map-differs", "coap-service-missing", f"aid {aid}: service iid {s_.iid} missing")
+                    continue
+                if int(gs["type"][:8], 16) != int(s_.type_hex, 16):
+                    ctx.violate("entity-map-differs", "coap-service-type", f"service {s_.iid}: type {gs['type']} != {s_.type_hex}")
+                if sorted(gs.get("linked", [])) != sorted(s_.linked):
+                    zero_low = any(i & 0xFF == 0 for i in s_.linked)
+                    ctx.violate("entity-map-differs", f"coap-links/{'zero-low-byte' if zero_low and len(s_.linked) == 1 else 'n=' + str(min(len(s_.linked), 2))}",
+                                f"aid {aid} service iid {s_.iid}: linked services decoded as {gs.get('linked', [])}, accessory encoded {s_.linked}")
+                gc_by = {c["iid"]: c for c in gs["characteristics"]}
+                for c in s_.chars:
+                    gc = gc_by.get(c.iid)
+                    if gc is None:
+                        ctx.violate("entity-map-differs", "coap-char-missing", f"characteristic iid {c.iid} missing")
+                        continue
+                    want = {"perms": [x for x in ("pr", "pw", "ev", "aa", "tw", "hd") if x in c.perms], "format": {"uint8": "int", "uint16": "int", "uint32": "int", "uint64": "int"}.get(c.fmt, c.fmt)}
+                    if c.minv is not None and c.fmt not in ("bool", "string", "data"):
+                        want["minValue"], want["maxValue"] = ba.unpack_value(c.fmt, ba.pack_value(c.fmt, c.minv)), ba.unpack_value(c.fmt, ba.pack_value(c.fmt, c.maxv))
+                    if c.step is not None and c.fmt not in ("bool", "string", "data"):
+                        want["minStep"] = ba.unpack_value(c.fmt, ba.pack_value(c.fmt, c.step))
+                    if int(gc["type"][:8], 16) != int(c.type_hex, 16):
+                        ctx.violate("entity-map-differs", "coap-char-type", f"char {c.iid}: type {gc['type']} != {c.type_hex}")
+                    for k, v in want.items():
+                        g = gc.get(k)
+                        if k == "perms":
+                            g = [x for x in ("pr", "pw", "ev", "aa", "tw", "hd") if x in (g or [])]
+                        if g != v:
+                            ctx.violate("entity-map-differs", f"coap-char-{k}", f"char iid {c.iid} ({c.fmt}, description {len(c.description or '')} B): {k} decoded as {g!r}, accessory encoded {v!r}")
+                            break
+                    if "pr" in c.perms and c.fmt not in ("float", "data") and gc.get("value") != c.value:
+                        ctx.violate("entity-map-differs", "coap-char-value", f"char iid {c.iid} ({c.fmt}): value {gc.get('value')!r} != {c.value!r}")
+        if acc.protocol_errors:
+            ctx.violate("request-not-canonical", "coap", f"reference accessory: {acc.protocol_errors[:2]}")
+        ctx.event("coap-db", len(acc.database()), [len(s_.linked) for _, sv in accessories for s_ in sv])
+        ctx.state("coap", len(accessories), big)
+
+    try:
+        loop.run_sim(main())
+    except SimDeadlock as e:
+        ctx.violate("deadlock", "coap", str(e))
+    finally:
+        seams.end()
+    sample = {"mode": "coap", "database_bytes": len(acc.database()), "accessories": [(a["aid"], [(hex(s_["iid"]), s_["linked"], len(s_["chars"])) for s_ in a["services"]]) for a in plan["accessories"]]}
+    return result_of(ctx, nontrivial=big or links2, sim_time=loop.time(), sample=sample)
